@@ -56,6 +56,12 @@ def gen(tier, rng, harness=None, driver=None):
     from . import metagen
     lines += metagen.print_lines(rng, n)
     lines += metagen.parse_stream(rng, driver, n // 2)
+    # M-Whole: whole modules (type definitions + globals + function definitions + metadata in ONE text): model text == implementation text; the proved
+    # top-level splitter, the four translations and the cross-fragment checks (names shared by globals and functions, named types used by functions,
+    # redefinition of opaque types) against the real parser on printed modules and 13 kinds of mutants that cross the fragments
+    from . import wholegen
+    lines += wholegen.print_lines(rng, n // 2)
+    lines += wholegen.parse_stream(rng, driver, n // 3)
     for t in modprops.corpus_texts():
         lines.append("!mod.stable - %s" % hx(t))
         lines.append("!mod.closure - %s" % hx(t))
@@ -147,7 +153,7 @@ def nontrivial(ln, model_out):
 
 def search(ln, a, b, harness, driver):
     p = ln.split()
-    if p[0] in ("meta.parse", "meta.print"):
+    if p[0] in ("meta.parse", "meta.print", "whole.parse", "whole.print"):
         # the proved model and the implementation differ on this text / section: it is itself the failing input when acceptance differs or the texts differ
         return {"ops": [ln], "impl": [a], "model": [b]}
     if p[0] in ("core2.readconst", "core2.print", "core2.reparse", "core3.parse", "core3.print", "core3.reparse"):
